@@ -33,18 +33,19 @@ R_RES = "jetexpand_residual"
 
 
 # ------------------------------------------------------------------ polynomial programs
-def gen_poly(rng, d, J, *, tdep, dout=None, max_terms=3, deg_u=2, deg_t=3, p_empty=0.08):
+def gen_poly(rng, d, J, *, tdep, dout=None, max_terms=3, deg_u=2, deg_t=3, p_empty=0.08, elementwise=False):
     """vector polynomial: list (component) of lists of (coeff, exponent tuple of length J*d + 1)"""
     dout = d if dout is None else dout
     nu = J * d
     comps = []
-    for _ in range(dout):
+    for comp_idx in range(dout):
         terms = {}
         nt = 0 if rng.random() < p_empty else rng.randint(1, max_terms)
         for _ in range(nt):
             e = [0] * (nu + 1)
             for _ in range(rng.randint(0, deg_u)):
-                e[rng.randrange(nu)] += 1
+                # variable index = block * d + dimension; element-wise: component a only sees dimension a
+                e[(rng.randrange(J) * d + comp_idx) if elementwise else rng.randrange(nu)] += 1
             if tdep and rng.random() < 0.6:
                 e[nu] = rng.randint(1, deg_t)
             terms[tuple(e)] = rng.choice(COEFFS)  # like terms are never generated twice
@@ -155,7 +156,7 @@ def make_ode(polys, m, d, unravel=None):
     return pdq.ode_order_two(lambda y, dy, /, *, t: unravel(fn([flat(y), flat(dy)], t)), jacobian=JM())
 
 
-def make_residual(polys, J, d, unravel=None, out_unravel=None):
+def make_residual(polys, J, d, unravel=None, out_unravel=None, JM=JM):
     """probdiffeq.residual_position / _velocity / _acceleration around the polynomial"""
     fn = make_fn(polys, J, d)
     ctor = {1: pdq.residual_position, 2: pdq.residual_velocity, 3: pdq.residual_acceleration}[J]
@@ -288,6 +289,25 @@ def replay_ode(args):
         res = pdq.residual_from_ode(ode_flat).jet_lift(lift_by=num - 1)
         run(R_RES, "flat", lambda: pdq.jetexpand_residual(num=num), res, flat_inits, want, m + num)
         run(R_RES, "flat", lambda: pdq.jetexpand_residual(num=0), res, flat_inits, want, m)
+        # an implicit problem that is NONLINEAR in its highest derivative and still determines it uniquely:
+        # phi(u^(m)) - phi(F(u, .., t)) = 0 with the strictly increasing phi(x) = x^3/s^2 + x has the same solution as u^(m) = F,
+        # but the default Gauss-Newton solver of the routine needs several iterations for every coefficient
+        fn = make_fn(prog["polys"], m, d)
+        # (the cubic is scaled with the size s of the exact root so that Newton from the zero start needs the same 5-6
+        #  iterations for every program - well inside the default budget of 10 - instead of O(log |root|) many)
+        s_root = max(1.0, float(np.max(np.abs(want[m]))))
+        phi = lambda x: x**3 / s_root**2 + x  # noqa: E731
+        if m == 1:
+            resn = pdq.residual_velocity(lambda u, du, /, *, t: phi(du) - phi(fn([u], t)), jacobian=JM())
+        else:
+            resn = pdq.residual_acceleration(lambda u, du, ddu, /, *, t: phi(ddu) - phi(fn([u, du], t)), jacobian=JM())
+        # the routine's default solver stops at a constraint RMS of 1e-6 (10 iterations at most): the coefficients of this
+        # variant are therefore held to 1e-3 only (observed on the pinned tree: <= 2e-5)
+        tol_keep, tol = tol, max(tol, 1e-3)
+        for num_n in sorted({1, min(num_full, 3)}):
+            if num_n >= 1:
+                run(R_RES, "implicit-nonlinear", lambda num_n=num_n: pdq.jetexpand_residual(num=num_n), resn.jet_lift(lift_by=num_n - 1), flat_inits, want, m + num_n)
+        tol = tol_keep
     if exp_implicit is not None:
         want = want_of(exp_implicit)
         num = min(len(want) - m, 4)
